@@ -141,7 +141,7 @@ PROPS = {
              "1e-9 relative and equal branch-level outcomes; flag set and signatures as data.",
              "every jitted kernel x generated inputs (see correspondence groups)", props="props/C19.v", special=True,
              corr_n=(25, 150)),
-    "C20": P([], [], "proof",
+    "C20": P(["IoGen"], [], "proof",
              "Theorems on the hand model of the mesh index arithmetic: point index bijection, coordinates, data order, cell corner "
              "sets, ray connectivity; the implementation is run with a stand-in meshio module and decoded point by point.",
              "non-cubic shapes, unequal spacings, origins, 0..2 traveltime grids with/without gradients, 1..3 rays", props="props/C20.v",
